@@ -3,17 +3,20 @@
     a sequence of iterations, each rendered as criterion lines followed by its total line, with
     arbitrary noise lines in between and inside, is returned exactly, in order, one data point
     per iteration (numbered by position 1..k, stamped with the invocation number by construction).
-    Line level (which line shapes the GENERATED expressions classify how): proved for SavinaLog
-    for the two line shapes of TimeAdapter's GNU-time format and for JMH's measured-iteration line (C05_line_savina, C05_savina_exact,
-    C05_line_time_rss, C05_line_time_wall, C05_line_jmh: the expression regenerated from the source matches a
-    rendered line with exactly the groups the adapter reads, for names, blanks and numerals of any
-    length); for the other formats (ReBenchLog, PlainSecondsLog, ValidationLog, time -p) it is
-    decided by the differential correspondence (the engine against CPython's `re`, render-then-parse
-    on the real adapters for all documented numeral shapes, units, prefixes, CR/LF) - C05 stays
-    PARTIAL at line level for those. *)
+    Line level (which line shapes the GENERATED expressions classify how): proved for every documented format -
+    SavinaLog (C05_line_savina, C05_savina_exact), ReBenchLog total lines (C05_line_rebenchlog, C05_rebenchlog_exact:
+    the optional greedy prefix "(?:.*: )?" is backtracked out of), ValidationLog (C05_line_validationlog,
+    C05_validationlog_exact), TimeAdapter with GNU time's format (C05_line_time_rss, C05_line_time_wall), with
+    POSIX time -p and the shell's time (C05_line_time_p - including that the first expression does NOT match -,
+    C05_line_time_sh, C05_time_p_exact), PlainSecondsLog (C05_line_plainseconds) and JMH (C05_line_jmh): the expression
+    regenerated from the source matches a rendered line with exactly the groups the adapter reads, for names, blanks
+    and numerals of any length and for every Unicode classification.  Not covered by a line theorem: ReBenchLog's
+    extra-criterion lines and its optional second word, numerals with a fraction or an exponent in ReBenchLog lines,
+    float()'s other numeral shapes; those are decided by the differential correspondence (the engine against CPython's
+    `re`, render-then-parse on the real adapters). *)
 From Coq Require Import List NArith Bool.
 Import ListNotations.
-From RV Require Import Lib.Str Lib.Regex Gen.GenRegex Model.Adapters Proofs.AdaptersP Proofs.RegexP Proofs.AdapterLinesP Proofs.RebenchLineP Proofs.ValidationLineP.
+From RV Require Import Lib.Str Lib.Regex Gen.GenRegex Model.Adapters Proofs.AdaptersP Proofs.RegexP Proofs.AdapterLinesP Proofs.RebenchLineP Proofs.ValidationLineP Proofs.TimeLineP Proofs.PlainLineP.
 
 Theorem C05_fold_exact :
   forall is_err stop classify (items : list (item)),
@@ -64,6 +67,49 @@ Theorem C05_line_time_wall :
     = LClose [mk_meas s_total s_ms (VFloatMul1000 (ip ++ [46%N] ++ fp))].
 Proof. exact time_wall_line. Qed.
 Print Assumptions C05_line_time_wall.
+
+(** Line level, TimeAdapter without GNU time: POSIX "time -p" ("real 1.23") - where the first expression is shown NOT
+    to match, whatever way its repeats are backtracked - and the shell's "real 0m1.234s". *)
+Theorem C05_line_time_p :
+  forall U name sp ip fp tail,
+    letters name -> blanks sp -> digits ip -> digits fp -> stops U CDigit tail ->
+    timp_line U (name ++ sp ++ (ip ++ [46%N] ++ fp) ++ tail)
+    = Some (mk_meas (crit_of name) s_ms (VMinSec sp (ip ++ [46%N] ++ fp))).
+Proof. exact time_p_line. Qed.
+Print Assumptions C05_line_time_p.
+
+Theorem C05_line_time_sh :
+  forall U name sp mn ip fp tail,
+    letters name -> blanks sp -> digits mn -> digits ip -> digits fp ->
+    timp_line U (name ++ sp ++ mn ++ [109%N] ++ (ip ++ [46%N] ++ fp) ++ [115%N] ++ tail)
+    = Some (mk_meas (crit_of name) s_ms (VMinSec mn (ip ++ [46%N] ++ fp))).
+Proof. exact time_sh_line. Qed.
+Print Assumptions C05_line_time_sh.
+
+(** ... and the whole output: the measures that are not the total in order, closed by the LAST total line; no total
+    line, no data point. *)
+Theorem C05_time_p_exact :
+  forall U faulty xs cur t0,
+    Forall (t_item_ok U faulty) xs ->
+    timp_loop U faulty (map t_line xs) cur t0
+    = match t_total xs t0 with Some t => POk [cur ++ t_others xs ++ [t]] | None => PReject false end.
+Proof. exact timp_loop_exact. Qed.
+Print Assumptions C05_time_p_exact.
+
+Example C05_time_p_example :        (* "real 1.50" / "user 0m0.25s" *)
+  timp_line palette ([114;101;97;108] ++ [32] ++ ([49] ++ [46] ++ [53;48]) ++ [])%N
+    = Some (mk_meas s_total s_ms (VMinSec [32]%N [49;46;53;48]%N))
+  /\ timp_line palette ([117;115;101;114] ++ [9] ++ [48] ++ [109] ++ ([48] ++ [46] ++ [50;53]) ++ [115] ++ [])%N
+    = Some (mk_meas [117;115;101;114]%N s_ms (VMinSec [48]%N [48;46;50;53]%N)).
+Proof. vm_compute. split; reflexivity. Qed.
+
+(** Line level, PlainSecondsLogAdapter: a line "<int>.<frac>" is a float for the model of float(), so it is the total
+    (token = the line, in seconds). *)
+Theorem C05_line_plainseconds :
+  forall U ip fp, digits ip -> digits fp ->
+    psl_classify U (ip ++ [46%N] ++ fp) = LClose [mk_meas s_total s_ms (VFloatMul1000 (ip ++ [46%N] ++ fp))].
+Proof. exact plain_line. Qed.
+Print Assumptions C05_line_plainseconds.
 
 (** Line level, JMH: a measured iteration "Iteration<blanks><n>:<blanks><int>.<frac><blanks><unit>". *)
 Theorem C05_line_jmh :
